@@ -283,6 +283,47 @@ def c12(run):
 MODES.update({"C09": "price", "C12": "ledger-alias"})
 
 
+@check("C11")
+def c11(run):
+    run.rule = ("spec/Loader.tla: (arb) every file system over three files (root, sibling, one in a sub-directory) whose contents are <=2 items "
+                "(entry or include: hit, miss, self, parent, glob); (glob) every subset of a nine-file universe with dot-files, another extension, "
+                "a longer name and two directories, the root including one of nine glob patterns; (split) every tree obtained from a flat "
+                "five-entry ledger by <=2 cuts (literal, via .., via glob); non-trivial = has an include")
+    run.assumptions += ["entries are identified by the Debug rendering of the parsed syntax tree",
+                        "a pattern whose last component could match a directory name is not generated",
+                        "an include line moves with a cut only into the same directory (paths are relative to the including file)",
+                        "a cyclic include must end in an error (any LoadError); a missing root or an include that matches nothing must be an I/O NotFound error"]
+    quick = run.tier == "quick"
+    run.add_model(tlc_check("MCLoader.tla", "Loader_ArbLive.cfg", workers=4))
+    scs = [("glob", "Loader_Glob.cfg"), ("split", "Loader_Split.cfg" if quick else "Loader_SplitT.cfg"), ("arb", "Loader_Arb.cfg")]
+    if not quick:
+        scs.append(("arbT", "Loader_ArbT.cfg"))
+    for sc, cfg in scs:
+        nd, n, st = tlc_gen("MCLoader.tla", cfg, "C11-%s" % sc, workers=8, timeout=2400, dedup=True)
+        st["scenario"] = sc
+        run.add_model(st)
+        recs, res = feed(run, "loader", nd, key=lambda r: json.dumps([r["fs"], r["expect"]], sort_keys=True))
+        if sc == "glob":
+            # vacuity guard: every glob pattern of the scenario must have matched something in some behaviour
+            hits = {}
+            for r in recs:
+                root = ["".join(c) for c in r["root"]]
+                for f in r["fs"]:
+                    for it in f["items"]:
+                        if it["k"] == "inc":
+                            pat = "/".join("".join(c) for c in it["pat"]["comps"])
+                            other = [d for d in r["expect"]["delivered"] if ["".join(c) for c in d["path"]] != root]
+                            hits[pat] = hits.get(pat, 0) + (1 if other else 0)
+            run.extra["glob_pattern_hits"] = hits
+            dead = [p for p, n in hits.items() if n == 0]
+            if dead:
+                raise ToolError("glob patterns that never match anything in the scenario (vacuous): %s" % dead)
+    run.exhaustive = True
+
+
+MODES["C11"] = "loader"
+
+
 @check("C10")
 def c10(run):
     run.rule = ("script Conv of spec/mc/MCConvert.tla: dated ledger with costs, lot price, total cost and an implied exchange over "
